@@ -1,6 +1,12 @@
 """M-modeltypes (owner: C23): scans everything a problem / action / action instance stores for a fluent or parameter and
-reports the values that are not type-compatible with their target (library notion Type.is_compatible, hazard H5) and the
-stored initial / default values that are not constants.  Only read-only accessors are used; nothing is modified.
+reports the values that are not type-compatible with their target and the stored initial / default values that are not
+constants.  Only read-only accessors are used; nothing is modified.
+
+Compatibility (`compatible`): for a *constant* value the oracle is independent of the library's type lattice - a Boolean
+constant fits Boolean targets only, an integer constant fits an int or real target whose bounds contain it, a real constant
+fits a real target whose bounds contain it (never an int target), an object fits a user-type target that is the object's
+type or one of its ancestors (own walk over `.father`).  For a non-constant expression the value set is not known
+statically and the library notion `Type.is_compatible` (overlapping intervals, hazard H5) is kept.
 
 bad(...) entries: (site, defect, target_text, value_text) with site in
   initial_defaults | fluents_defaults | explicit_initial_values | initial_values | action-effect | timed-effect | action-instance
@@ -15,15 +21,45 @@ def _vtype(v):
         return None
 
 
+def _within(ttype, x):
+    lb, ub = ttype.lower_bound, ttype.upper_bound
+    return (lb is None or lb <= x) and (ub is None or x <= ub)
+
+
+def compatible(ttype, v):
+    """Is the expression `v` an admissible value for a target of type `ttype`?  -> bool (see module docstring)."""
+    if v.is_constant():
+        if v.is_bool_constant():
+            return ttype.is_bool_type()
+        if v.is_int_constant():
+            return (ttype.is_int_type() or ttype.is_real_type()) and _within(ttype, v.constant_value())
+        if v.is_real_constant():
+            return ttype.is_real_type() and _within(ttype, v.constant_value())
+        if v.is_object_exp():
+            if not ttype.is_user_type():
+                return False
+            t = v.object().type
+            while t is not None:
+                if t is ttype or t == ttype:
+                    return True
+                t = t.father
+            return False
+        return False
+    vt = _vtype(v)
+    if vt is None:
+        return False
+    try:
+        return bool(ttype.is_compatible(vt))
+    except Exception:
+        return False
+
+
 def _check(site, ttype, v, need_const, target_text, out):
     vt = _vtype(v)
     if vt is None:
         out.append((site, "untyped", target_text, str(v)))
         return
-    try:
-        ok = ttype.is_compatible(vt)
-    except Exception:
-        ok = False
+    ok = compatible(ttype, v)
     if not ok:
         out.append((site, "incompatible", f"{target_text}: {ttype}", f"{v}: {vt}"))
     if need_const and not v.is_constant():
